@@ -39,6 +39,18 @@ def ref_builtin(fn, args, kwargs):
         return np.abs(one())
     if fn == "<builtin>dot_product":
         return np.vdot(args[0], args[1])
+    if fn == "<builtin>matmul":
+        names = ["a", "b", "a_cols", "b_cols"]
+        vals = dict(zip(names, args))
+        for k, v in kwargs.items():
+            if k in vals or k not in names:
+                raise IllDefined("builtin-kw")
+            vals[k] = v
+        if len(vals) != 4:
+            raise IllDefined("builtin-args")
+        a_mat = np.asarray(vals["a"]).reshape(-1, int(vals["a_cols"]), order="F")
+        b_mat = np.asarray(vals["b"]).reshape(-1, int(vals["b_cols"]), order="F")
+        return a_mat.dot(b_mat).reshape(-1, order="F")
     if fn == "<builtin>array":
         n = one()
         if n != int(n):
@@ -64,6 +76,7 @@ class RefStepper:
         self.tolerant = False          # set once compensated and naive summation disagree
         self.scale = 0.0               # largest magnitude seen in sums (absolute tolerance scale)
         self.inexact_events = 0
+        self.probes = {}
         self.op_trace = None
 
     # R interface used by the expression trees
@@ -91,6 +104,9 @@ class RefStepper:
         if self.call_hook is not None:
             return self.call_hook(fn, args, kwargs)
         return FUNCS[fn][1](*args, **kwargs)
+
+    def probe(self, name):
+        self.probes[name] = self.probes.get(name, 0) + 1
 
     def set_up(self, t0, dt0, state):
         self.vars = {"<t>": t0, "<dt>": dt0}
@@ -138,6 +154,8 @@ class RefStepper:
                     raise IllDefined("non-integer-bound")
             if hi_v - lo_v > 64:
                 raise IllDefined("long-loop")
+            if hi_v <= lo_v:
+                self.probe("zero_trip_loop")
             for i in range(lo_v, hi_v):
                 self.vars[c] = i
                 run_loops(ls[1:])
@@ -181,6 +199,7 @@ class RefStepper:
                 if flag:
                     self.exec_block(then)
                 elif else_ is not None:
+                    self.probe("else_taken")
                     self.exec_block(else_)
             elif k == "yield":
                 _, e, comp, te, tid, _mode = op
@@ -192,8 +211,10 @@ class RefStepper:
             elif k == "fail":
                 raise StepEnd("failed")
             elif k == "switch":
+                self.probe("step_switched")
                 raise StepEnd("switch", op[1])
             elif k == "restart":
+                self.probe("step_restarted")
                 raise StepEnd("switch", self.cur)
             elif k == "raise":
                 raise StepEnd("raised", op[1])
